@@ -117,17 +117,22 @@ fn run_property(prop: &str, tier: Tier, rep: &mut Report) -> Plan {
             let cases = input::structural_cases(tier);
             input::run_cases(&cases, rep, |_| false);
             run_hist(tier, if b { &["k256"] } else { &["k256", "libsecp", "ed", "comb-secp"] }, true, rep);
+            hist::c09_builder_sweep::<K256S>(&[1, 127], 290, 304, rep);
+            hist::c09_builder_sweep::<EdS>(&[1, 65535], 290, 304, rep);
             rep.require_class("accept/ref-accept");
             Plan { rule: "every accepted C02 case (decode side) and every state of the HIST graph (record side): byte-exact re-encode, bytes/text/JSON round trips, fields = independent parse", assumptions: vec![TRUST, BOUND_HIST, BOUND_INPUT] }
         }
         "C05" => {
             run_hist(tier, if b { &["k256", "comb-secp", "comb-ed"] } else { &[] }, true, rep);
+            hist::c09_builder_sweep::<K256S>(&[1, 127], 290, 304, rep);
+            hist::c09_builder_sweep::<CombEdS>(&[1, 65535], 290, 304, rep);
             rep.require_class("merge");
             rep.require_class("build:ok");
             Plan { rule: hist_rule, assumptions: vec![TRUST, BOUND_HIST, "configurations A (all features) and B (without rust-secp256k1)"] }
         }
         "C06" => {
             run_hist(tier, if b { &["k256", "fault-k256"] } else { &["k256", "ed", "fault-k256", "fault-ed", "var"] }, true, rep);
+            replay::cross_scheme_histories(rep);
             for c in ["err:ExceedsMaxSize:insert_raw_rlp", "err:SequenceNumberTooHigh:set_udp_socket", "err:InvalidRlpData:insert_raw_rlp", "err:UnsupportedIdentityScheme:remove_key", "fault@0:remove_insert", "fault@0:set_seq"] {
                 rep.require_class(c);
             }
@@ -135,6 +140,7 @@ fn run_property(prop: &str, tier: Tier, rep: &mut Report) -> Plan {
         }
         "C07" => {
             run_hist(tier, if b { &["k256"] } else { &["k256", "ed", "comb-ed"] }, true, rep);
+            replay::cross_scheme_histories(rep);
             value::run_c07_values::<EdS>(tier, rep);
             if tier == Tier::Thorough {
                 value::run_c07_values::<K256S>(tier, rep);
